@@ -605,3 +605,4 @@ PROPS["C16"]["rule"] += (" crolt part: a third of the jobs are slow (their HTTP 
                          "takes 200 ms of virtual time inside the firing loop's transaction), and Delete requests also arrive while a "
                          "pass of the firing loop is running.")
 PROPS["C09"]["rule"] += " A 'bulk' operation stores 20-70 facts in one location at once, so that inherited results exceed 64 entries."
+PROPS["C09"]["rule"] += " The parent set is also written and removed as what the manual says it is, an ordinary property fact ({\"!parents\": [...]} / id \"!.parents\")."
